@@ -14,7 +14,7 @@
 (*   c  classification labels computed by the spec (wall class, fold, ...)   *)
 (*   v  failed clauses, << <<clause, expected>>, ... >>; empty = conforming  *)
 (***************************************************************************)
-EXTENDS OpsDiff, OpsModifiers, OpsCalendar, TLCExt
+EXTENDS OpsDiff, OpsModifiers, OpsCalendar, OpsDuration, TLCExt
 
 T == JsonDeserialize(IOEnv.PV_TRACE)
 VARIABLES l, nbad
@@ -253,6 +253,125 @@ J_of(e) ==
           R(lab \o <<"target", TargetClass(s, n, FALSE), "fold", B(s.f = 1), "path-anomaly", PathLabel(s, unit, y, m)>>,
             CmpAtDay(e.post, s, n, FALSE))
 
+\* ---- C09 -----------------------------------------------------------------------------
+CompsOf(p) == <<p.weeks, p.remaining_days, p.hours, p.minutes, p.remaining_seconds, p.microseconds>>
+FTol(t) == 2 + D3Abs(t)[1] \div 10000
+J_dur_new(e) ==
+  LET a == e.a.args  p == e.post
+      t == D3OfArgs(a)
+      r == RestOf(a)
+  IN R(<<N(D3Sign(r) + 1), B(a.y # 0 \/ a.mo # 0), B(FloatExact(t) /\ FloatExact(r)), e.a.how>>,
+       IF ~(FloatExact(t) /\ FloatExact(r)) THEN <<>>
+       ELSE IF p.k = "exc" THEN << <<"unexpected-exception", p.names>> >>
+       ELSE IF p.k # "dur" THEN << <<"kind", p.k>> >>
+       ELSE V("class", p.cls = "Duration", "Duration")
+            \o V("timedelta", p.r3 = t, t)
+            \o V("years-months", <<p.years, p.months>> = <<a.y, a.mo>>, <<a.y, a.mo>>)
+            \o V("components", CompsOf(p) = Breakdown(r), Breakdown(r))
+            \o V("total_seconds", p.ts = t, t)
+            \* total_x() = total_seconds() / unit in floating point: consistent within the float's relative precision
+            \o V("total_minutes", Near(p.tmi, t, FTol(t)), t) \o V("total_hours", Near(p.th, t, FTol(t)), t)
+            \o V("total_days", Near(p.td, t, FTol(t)), t) \o V("total_weeks", Near(p.tw, t, FTol(t)), t)
+            \o V("in_seconds", p.ins = TruncSec(t), TruncSec(t)) \o V("in_minutes", p.inm = TruncMin(t), TruncMin(t))
+            \o V("in_hours", p.inh = TruncHour(t), TruncHour(t)) \o V("in_days", p.ind = TruncDay(t), TruncDay(t))
+            \o V("in_weeks", p.inw = TruncWeek(t), TruncWeek(t))
+            \o (IF e.a.how = "rebuilt" /\ FloatExact(e.a.orig.r3)
+                    /\ FloatExact(D3Sub(e.a.orig.r3, <<365 * e.a.orig.years + 30 * e.a.orig.months, 0, 0>>))
+                THEN V("rebuild", p.r3 = e.a.orig.r3 /\ CompsOf(p) = CompsOf(e.a.orig)
+                                                          /\ <<p.years, p.months>> = <<e.a.orig.years, e.a.orig.months>>,
+                                               e.a.orig.r3)
+                ELSE <<>>))
+
+\* ---- C10 -----------------------------------------------------------------------------
+\* operands: x = e.pre[1] (left), y = e.pre[2] (right); each a duration/timedelta projection, or a scalar in e.a
+OpD3(v) == v.r3
+IsDurClass(p) == p.k = "dur" /\ p.cls = "Duration"
+CmpDur(p, want) == IF p.k = "exc" THEN << <<"unexpected-exception", p.names>> >>
+                   ELSE IF p.k \notin {"dur", "td"} THEN << <<"kind", p.k>> >>
+                   ELSE V("length", p.r3 = want, want)
+TypeDur(p, must) == IF must /\ p.k \in {"dur", "td"} THEN V("type", p.k = "dur" /\ p.cls = "Duration", "Duration") ELSE <<>>
+J_dur_op(e) ==
+  LET o == e.a.o  p == e.post
+      x == e.pre[1]
+      durLeft == x.k = "dur"
+      lab == <<o, x.k, (IF Len(e.pre) > 1 THEN e.pre[2].k ELSE "scalar")>>
+  IN CASE o = "neg" -> R(lab, CmpDur(p, D3Neg(x.r3)) \o TypeDur(p, TRUE)
+                            \o (IF p.k = "dur" THEN V("years-months", <<p.years, p.months>> = <<-x.years, -x.months>>, <<-x.years, -x.months>>) ELSE <<>>))
+       [] o = "abs" -> R(lab, CmpDur(p, D3Abs(x.r3)))
+       [] o \in {"add", "radd"} -> R(lab, CmpDur(p, D3Add(x.r3, e.pre[2].r3)) \o TypeDur(p, TRUE))
+       [] o = "sub" -> R(lab, CmpDur(p, D3Sub(x.r3, e.pre[2].r3)) \o TypeDur(p, durLeft))
+       [] o \in {"mul_int", "rmul_int"} ->
+            R(lab \o <<B(x.years # 0 \/ x.months # 0), "float-exact", B(D3Abs(D3MulInt(x.r3, e.a.n))[1] < 99420)>>,
+              IF x.years # 0 \/ x.months # 0
+              THEN (IF p.k = "exc" THEN << <<"unexpected-exception", p.names>> >> ELSE
+                    V("years-months", <<p.years, p.months>> = <<x.years * e.a.n, x.months * e.a.n>>, <<x.years * e.a.n, x.months * e.a.n>>)
+                    \o TypeDur(p, TRUE))
+              ELSE CmpDur(p, D3MulInt(x.r3, e.a.n)) \o TypeDur(p, TRUE))
+       [] o \in {"mul_float", "rmul_float"} -> R(lab, CmpDur(p, D3MulRatio(x.r3, e.a.num, e.a.den)) \o TypeDur(p, TRUE))
+       [] o = "truediv_int" -> R(lab, CmpDur(p, D3DivRHE(x.r3, e.a.n)) \o TypeDur(p, TRUE))
+       [] o = "truediv_float" -> R(lab, CmpDur(p, D3DivRatio(x.r3, e.a.num, e.a.den)) \o TypeDur(p, TRUE))
+       [] o = "floordiv_int" -> R(lab, CmpDur(p, D3FloorDivInt(x.r3, e.a.n)) \o TypeDur(p, TRUE))
+       [] o \in {"floordiv_dur", "mod_dur", "divmod_dur", "truediv_dur"} ->
+            LET y == e.pre[2] IN
+            IF ~Comparable(x.r3, y.r3) \/ D3Sign(y.r3) = 0 THEN R(lab \o <<"out-of-limb-range">>, <<>>)
+            ELSE LET q == QuoOf(x.r3, y.r3)  rm == RemOf(x.r3, y.r3) IN
+                 R(lab,
+                   IF p.k = "exc" THEN << <<"unexpected-exception", p.names>> >>
+                   ELSE CASE o = "floordiv_dur" -> V("quotient", p.k = "int" /\ p.n = q, q)
+                          [] o = "mod_dur" -> CmpDur(p, rm) \o TypeDur(p, TRUE)
+                          [] o = "divmod_dur" -> V("quotient", p.q.k = "int" /\ p.q.n = q, q) \o CmpDur(p.r, rm) \o TypeDur(p.r, TRUE)
+                          [] o = "truediv_dur" ->
+                               \* the driver only divides where the exact quotient is a small dyadic rational
+                               (IF p.k # "float" THEN << <<"kind", p.k>> >>
+                                ELSE LET a1 == IF FitsUs(x.r3) /\ FitsUs(y.r3) THEN UsOf(x.r3) ELSE SecOf(x.r3)
+                                         b1 == IF FitsUs(x.r3) /\ FitsUs(y.r3) THEN UsOf(y.r3) ELSE SecOf(y.r3)
+                                     IN IF Abs(a1) > 1000000 \/ Abs(b1) > 1000000 \/ p.den > 2048 \/ Abs(p.num) > 2000000 THEN <<>>
+                                        ELSE V("ratio", p.num * b1 = p.den * a1, <<a1, b1>>)))
+       [] o = "cmp" -> LET y == e.pre[2]  xs == x.r3  ys == y.r3 IN
+            R(lab, V("eq", p.eq = (xs = ys), xs = ys) \o V("lt", p.lt = D3Lt(xs, ys), D3Lt(xs, ys))
+                   \o V("le", p.le = D3Le(xs, ys), D3Le(xs, ys)) \o V("gt", p.gt = D3Lt(ys, xs), D3Lt(ys, xs))
+                   \o V("ge", p.ge = D3Le(ys, xs), D3Le(ys, xs))
+                   \o V("hash", (xs = ys) => p.hash_eq, "equal values hash equal")
+                   \o V("hash-native", p.hash_native, "hash(Duration) = hash(timedelta of the same length)"))
+
+\* ---- C20 -----------------------------------------------------------------------------
+J_time_add(e) ==
+  LET t == e.pre[1].w
+      d0 == D3Of(0, e.a.h, e.a.mi, e.a.s, e.a.us)
+      back == e.a.entry \in {"subtract", "minus_td"}
+      d == IF back THEN D3Neg(d0) ELSE d0
+      viaTd == e.a.entry \in {"plus_td", "minus_td", "radd_td"}
+      hasDays == d0[1] # 0
+      x == TimeAdd(t, d)
+  IN IF viaTd /\ hasDays /\ D3Abs(d0)[1] = 0
+     THEN R(<<e.a.entry, "negative-sub-day-timedelta">>, <<>>)       \* "day component" has two readings here
+     ELSE IF viaTd /\ hasDays
+     THEN R(<<e.a.entry, "td-with-days">>,
+            IF e.post.k = "exc" THEN V("exception-class", "TypeError" \in ToSet(e.post.names), "TypeError")
+            ELSE << <<"must-raise", "TypeError">> >>)
+     ELSE R(<<e.a.entry, B(D3Add(TimeD3(t), d)[1] # 0)>>,
+            IF e.post.k = "exc" THEN << <<"unexpected-exception", e.post.names>> >>
+            ELSE IF e.post.k # "time" THEN << <<"kind", e.post.k>> >>
+            ELSE V("class", e.post.cls = "Time", "Time") \o V("time", e.post.w = x, x))
+J_time_diff(e) ==
+  LET t1 == e.pre[1].w  t2 == e.pre[2].w  p == e.post
+      d == TimeDiff(t1, t2)
+      want == IF e.a.entry \in {"diff_abs", "diff_default"} THEN D3Abs(d) ELSE d
+  IN R(<<e.a.entry, N(D3Sign(d) + 1), B(t1[4] # t2[4])>>,
+       IF p.k = "exc" THEN << <<"unexpected-exception", p.names>> >>
+       ELSE IF p.k # "dur" THEN << <<"kind", p.k>> >>
+       ELSE V("difference", p.ts = want, want))
+\* closest()/farthest(): the chosen candidate must be at least as close (far) as the other
+J_time_pick(e) ==
+  LET t == e.pre[1].w  a == e.pre[2].w  b == e.pre[3].w  p == e.post
+      da == D3Abs(TimeDiff(t, a))  db == D3Abs(TimeDiff(t, b))
+      okc == IF e.op = "time_closest" THEN (IF D3Lt(da, db) THEN {a} ELSE IF D3Lt(db, da) THEN {b} ELSE {a, b})
+             ELSE (IF D3Lt(db, da) THEN {a} ELSE IF D3Lt(da, db) THEN {b} ELSE {a, b})
+  IN R(<<e.op, B(da = db), B(<<da[1], da[2]>> = <<db[1], db[2]>>)>>,
+       IF p.k = "exc" THEN << <<"unexpected-exception", p.names>> >>
+       ELSE IF p.k # "time" THEN << <<"kind", p.k>> >>
+       ELSE V("class", p.cls = "Time", "Time") \o V("choice", p.w \in okc, okc))
+
 \* ---- C15 -----------------------------------------------------------------------------
 J_year_prims(e) == LET y == e.a.y IN
    R(<<B(IsLeap(y)), B(IsLongYear(y))>>,
@@ -301,6 +420,11 @@ Judge(e) == CASE e.op = "in_tz" -> J_in_tz(e)
               [] e.op \in {"start_of", "end_of"} -> J_start_end(e)
               [] e.op \in {"next", "previous"} -> J_nav(e)
               [] e.op \in {"first_of", "last_of", "nth_of"} -> J_of(e)
+              [] e.op = "dur_new" -> J_dur_new(e)
+              [] e.op = "dur_op" -> J_dur_op(e)
+              [] e.op = "time_add" -> J_time_add(e)
+              [] e.op = "time_diff" -> J_time_diff(e)
+              [] e.op \in {"time_closest", "time_farthest"} -> J_time_pick(e)
               [] e.op = "year_prims" -> J_year_prims(e)
               [] e.op = "year_weekdays" -> J_year_weekdays(e)
               [] e.op = "year_getters" -> J_year_getters(e)
